@@ -342,6 +342,23 @@ macro_rules! define_lagrange { ($name:ident, $n0:ident, $n1:ident, $n2:ident, $n
             // Compute this amount s = len(sp) - len(nv)
             // (if s < 0, it is replaced with 0).
             let bl_sp = sp.bitlength(first);
+
+            // If 2*|sp| <= N_v, then the basis is size-reduced: v is a
+            // shortest vector and no further reduction is possible. This
+            // happens within this first loop when the lattice is very
+            // unbalanced (v much shorter than sqrt(n)), in which case
+            // nu never shrinks enough to reach the second loop.
+            if !first && bl_sp < bl_nv && !nv.is_negative() {
+                let mut x = nv;
+                if sp.is_negative() {
+                    x.set_add_shifted(&sp, 1);
+                } else {
+                    x.set_sub_shifted(&sp, 1);
+                }
+                if !x.is_negative() {
+                    return (v0.0, v1.0);
+                }
+            }
             let mut s = bl_sp.wrapping_sub(bl_nv);
             s &= !(((s as i32) >> 31) as u32);
 
